@@ -170,6 +170,61 @@ theorem assigned_kept_partial_keptIn (d : Dir) (A : List Nat) (now : Int) (m : B
   simp only [keptIn, List.any_eq_true]
   exact ⟨g, hg, by simp [hb, ha id hid]⟩
 
+/-- **the failure keys are sound**: on the model, an assigned repository never loses a file outside the two excluded
+    classes — the check's key `assigned-lost` (as opposed to the known-finding keys) is never produced by the model, so a
+    real directory on which it appears is a behaviour the modelled `cleanup` does not have -/
+theorem assigned_loss_is_known_class (d : Dir) (A : List Nat) (now : Int) (m : Bool) (HU : IndexNamesUnique d) :
+    lossKey d A (lostPairs d (cleanup d A now m) A) ≠ some "assigned-lost" := by
+  intro hk
+  -- some lost pair is unclassified
+  have hex : ∃ q ∈ lostPairs d (cleanup d A now m) A, lossClass d A q.2 = "assigned-lost" := by
+    unfold lossKey at hk
+    cases hl : lostPairs d (cleanup d A now m) A with
+    | nil => rw [hl] at hk; cases hk
+    | cons p r =>
+      rw [hl] at hk
+      simp only at hk
+      by_cases hany : ((p :: r).any fun q => lossClass d A q.2 == "assigned-lost") = true
+      · obtain ⟨q, hq, hc⟩ := List.any_eq_true.mp hany
+        exact ⟨q, hq, by simpa using hc⟩
+      · rw [if_neg hany] at hk
+        injection hk with hk
+        exact ⟨p, by simp, hk⟩
+  obtain ⟨⟨id, f⟩, hq, hc⟩ := hex
+  simp only [lostPairs, List.mem_flatMap] at hq
+  obtain ⟨id', _, hq⟩ := hq
+  by_cases hcons : consistent d.index id' = true
+  case neg => rw [if_neg hcons] at hq; cases hq
+  rw [if_pos hcons] at hq
+  simp only [List.mem_map, List.mem_filter, Bool.and_eq_true, Bool.not_eq_true', Prod.mk.injEq] at hq
+  obtain ⟨f', ⟨hf', hal, hnk⟩, rfl, rfl⟩ := hq
+  -- the class is the generic one: the file holds only assigned, consistently named repositories, and no trashed file has its name
+  simp only [lossClass] at hc
+  have hforeign : holdsForeign d A f' = false := by
+    cases h : holdsForeign d A f'
+    · rfl
+    · rw [h] at hc; simp only [if_true] at hc; split at hc <;> exact absurd hc (by decide)
+  rw [hforeign] at hc
+  simp only [Bool.false_eq_true, if_false] at hc
+  have hbase : hasBase d.trash f'.compound f'.key = false := by
+    cases h : hasBase d.trash f'.compound f'.key
+    · rfl
+    · rw [h] at hc; exact absurd hc (by decide)
+  have Hall : ∀ id, aliveIn f' id = true → A.contains id = true ∧ consistent d.index id = true := by
+    intro id hid
+    rw [aliveIn_iff] at hid
+    obtain ⟨r, hr, hrid, hrt⟩ := hid
+    simp only [holdsForeign, List.any_eq_false, Bool.and_eq_true, Bool.not_eq_true', Bool.or_eq_true, not_and, not_or] at hforeign
+    have := hforeign r hr hrt
+    rw [hrid] at this
+    exact ⟨by simpa using this.1, by simpa using this.2⟩
+  have Hdisj : ∀ g ∈ d.trash, sameBase g f'.compound f'.key = false := by
+    intro g hg
+    simp only [hasBase, List.any_eq_false] at hbase
+    simpa using hbase g hg
+  have := assigned_kept_partial_keptIn d A now m f' hf' HU Hall Hdisj id' hal
+  rw [hnk] at this; cases this
+
 /-- **trash_purge_rule** for the purge phase (the only phase whose purpose is to delete from the trash): a trashed
     file is gone after phase 1 only if a repository alive in it has a trashed shard older than 24 h or an indexed copy.
     (Later phases only move trashed files back into the index, or — the known finding
